@@ -44,4 +44,15 @@ func init() {
 			p.Rule += " Round 10: " + more
 		}
 	}
+	for id, more := range map[string]string{
+		"C03": "the reader of a failed message is read again: a clean end after the failure is a violation.",
+		"C04": "the reader of a failed message is read again: a clean end after the failure is a violation.",
+		"C07": "bufio.Writer pooled during a transport write; early bytes of a server connection survive other connections' set-up.",
+		"C10": "one context shared by an overlapping read and write.",
+		"C18": "NetConn.Close while the adapter's own Write / Read are stuck.",
+	} {
+		if p := fw.Lookup(id); p != nil {
+			p.Rule += " Round 11: " + more
+		}
+	}
 }
